@@ -16,7 +16,7 @@ RULE = ("schemas with mutable defaults on typed lists/dicts (scalars, dict items
         "periodically (3) a twin built *after* the mutations against the declared defaults; a second scenario reuses "
         "one sub-schema / config type as the item type of two lists in two configurations; non-trivial = >= 3 "
         "operations applied with >= 1 in-place mutation or dynamic field; distinct = distinct (schema, history)")
-REQUIRED = ("serialisations_applied", "twin_before_checks", "twin_after_checks", "fingerprint_checks", "shared_item_checks", "ops_applied",
+REQUIRED = ("cross_assignments", "serialisations_applied", "twin_before_checks", "twin_after_checks", "fingerprint_checks", "shared_item_checks", "ops_applied",
             "inplace_mutations", "dynamic_fields_added")
 ASSUMPTIONS = ["deep mutation inside an *untyped* default (ListField(default=[[1]]), Field(default=[...])) is out of "
                "scope: the property quantifies over mutable defaults on typed fields"]
@@ -39,7 +39,26 @@ def generate(rng, ctx):
     n = rng.randrange(4, 40 if thorough else 22)
     ops = history.gen_ops(rng, schema, env, n, bad=0.15)
     ops = [op for op in ops if op["op"] != "cmdline"]
-    return {"scenario": "twin", "schema": schema, "ops": ops}
+    # the twin takes over live typed list/dict values of `a` by assignment; later in-place changes of `a` must not reach it
+    cross = []
+    for path, nd in history.all_paths(schema):
+        if "[]" in path or nd["kind"] != "field" or nd["family"] not in ("list", "dict") or not history._typed(nd):
+            continue
+        if rng.random() < 0.6:
+            cross.append(path)
+            for _ in range(2):
+                if nd["family"] == "list":
+                    ops.insert(rng.randrange(len(ops) + 1), {
+                        "op": "listop", "path": path, "name": rng.choice(["append", "insert", "extend"]), "i": 0, "n": 1, "iter": "list",
+                        "a": None, "b": None, "x": gen.one_value(rng, nd["item"], "valid", env),
+                        "xs": [gen.one_value(rng, nd["item"], "valid", env)]})
+                else:
+                    kf, vf = nd.get("keyf"), nd.get("valf")
+                    k = gen.one_value(rng, kf, "valid", env) if kf else "zk%d" % rng.randrange(9)
+                    v = gen.one_value(rng, vf, "valid", env) if vf else 1
+                    ops.insert(rng.randrange(len(ops) + 1), {"op": "dictop", "path": path, "name": rng.choice(["setitem", "update"]),
+                                                             "kv": [k, v], "pairs": [[k, v]], "kind": "dict"})
+    return {"scenario": "twin", "schema": schema, "ops": ops, "cross": cross[:4]}
 
 
 def _no_untyped(node, tree):
@@ -179,6 +198,16 @@ def run(case, ctx, res):
     drv = history.Driver(ctx, res, case["schema"], env)
     a = drv.cfg
     b = cc.Config(drv.built.schema, key_filename=drv.keyfile)
+    for path in case.get("cross", ()):
+        from .. import spec as _spec
+
+        try:
+            live = _spec.get_path(a, path)
+            if live is not None:
+                b[path] = live
+                res.count("cross_assignments")
+        except Exception:
+            pass
     fp0 = fingerprint(cc, drv.built.schema)
     b0 = Snapshot(b)
     expect_fresh = model.defaults_tree(drv.root, env)
